@@ -17,13 +17,19 @@
 //              L     reader walks its chain through readableEntry(f).start / readableSlice(f,id).size/.next
 //              r     closeForReading(f)        f  closeForReadingAndFreeIdle(f)
 //              F<f>  freeEntry(f)              K<k>  freeEntryByKey(key)
+//              U<k>  openForUpdating(update, -1) for a StoreEntry with this key (stale = the readable entry,
+//                    fresh = a keyless anchor found by openKeyless()); then, as MemStore::updateHeadersOrThrow():
+//              s<n>  update.stale.splicingPoint = sliceContaining(stale.fileNo, n)
+//              +<z>  append a slice to the fresh prefix (as a writer does); update.fresh.splicingPoint = that slice
+//              u     closeForUpdating(update)   (legal once both splicing points are set)
+//              x     abortUpdating(update)
 //   key char = '0'..'9' -> key words {d, 0};  'a'..'i' -> key words {0, 1..9}   (name = (k0 + k1) % N)
 //   schedule = string of thread digits ('-' = empty); one digit = the named thread performs ONE scheduling
 //              step: its "use" step (between two calls; picks the next legal operation) or one atomic operation.
 //
 // Each thread is a client that follows the caller protocol of StoreMap: it keeps a mode
 //   I  holds nothing          W<f> opened f for writing (exclusive)      A<f> writer of f in append mode
-//   R<f> opened f for reading
+//   R<f> opened f for reading              U<s>.<f> updating: stale entry s (read + headers lock), fresh anchor f (exclusive)
 // and skips script operations that are not legal in its mode (W X P R only in I; + w a in W/A; A in W; L r f in R;
 // F and K in any mode). The slice pool (free slice ids) is harness state, like the free-slot stacks of the
 // real stores; StoreMap returns slices to it through StoreMapCleaner::noteFreeMapSlice().
@@ -35,6 +41,7 @@
 //   <t>~<id>          StoreMap told the cleaner that slice <id> is free again (inside an operation of t)
 //   <t>W<k>+<f> / <t>W<k>-     (same for X, P, R)     <t>+<z>:<id> / <t>+<z>:-  (pool empty)
 //   <t>A. <t>w. <t>a. <t>r. <t>f.   <t>F<f>+ / <t>F<f>-   <t>K<k>.   <t>L[id:size,id:size,...]
+//   <t>U<k>+<stale>><fresh> / <t>U<k>-    <t>s<n>:<slice id or -1>    <t>u.   <t>x.
 //   | a<i>=<readers>,<writing>,<appending>,<updating>,<readLevel>,<writeLevel>,<waitingToBeFreed>,<writerHalted>,<k0>.<k1>,<start>,<splicingPoint> ...
 //   | s<i>=<size>,<next> ... | cnt=<anchors.count> vic=<anchors.victim> fn=<fileNos...> | pool=<bits> | m=<modes>
 //   | p=<+/- per anchor: openForWritingAt(f) tried alone, then abortWriting(f)> | steps=<n>
@@ -121,8 +128,8 @@ struct TestMap : public Ipc::StoreMap {
     Ipc::StoreMapFileNos &F() { return *fileNos; }
 };
 
-enum Mode { I, W, A, R };
-static const char ModeChar[] = "IWAR";
+enum Mode { I, W, A, R, U };
+static const char ModeChar[] = "IWARU";
 
 struct Key {
     uint64_t w[2];
@@ -150,6 +157,9 @@ struct Case {
     std::vector<int> anchor; // held anchor (mode != I)
     std::vector<int> last;   // writer: last slice appended (-1 = none)
     std::vector<bool> crashed;
+    std::vector<std::unique_ptr<Ipc::StoreMapUpdate>> upd; // mode U: the update in progress
+    std::vector<Key> ukey;                                 // ... its entry key (update.entry->key points here)
+    std::vector<StoreEntry *> uentry;                      // ... its StoreEntry (zero-filled storage, never constructed)
     std::vector<bool> pool;  // free slice ids
     std::string log;
     verif_sched::Scheduler *sched = nullptr; // tells which thread is running (for the cleaner's event)
@@ -169,6 +179,8 @@ static std::string tmode(const Case &c, int t)
     std::string s(1, ModeChar[c.mode[t]]);
     if (c.mode[t] != I)
         s += std::to_string(c.anchor[t]);
+    if (c.mode[t] == U)
+        s += "." + std::to_string(c.upd[t]->fresh.fileNo);
     return s;
 }
 
@@ -179,15 +191,19 @@ void Cleaner::noteFreeMapSlice(const Ipc::StoreMapSliceId sliceId)
         c->pool[sliceId] = true;
 }
 
-static bool hasParam(char o) { return o == 'W' || o == 'X' || o == 'P' || o == 'R' || o == 'F' || o == 'K' || o == '+'; }
+static bool hasParam(char o) { return o == 'W' || o == 'X' || o == 'P' || o == 'R' || o == 'F' || o == 'K' || o == '+' || o == 'U' || o == 's'; }
 
-static bool legal(Mode m, char o)
+static bool legal(const Case &c, int t, char o)
 {
+    const Mode m = c.mode[t];
     switch (o) {
-    case 'W': case 'X': case 'P': case 'R': return m == I;
-    case '+': case 'w': case 'a': return m == W || m == A;
+    case 'W': case 'X': case 'P': case 'R': case 'U': return m == I;
+    case '+': return m == W || m == A || m == U;
+    case 'w': case 'a': return m == W || m == A;
     case 'A': return m == W;
     case 'L': case 'r': case 'f': return m == R;
+    case 's': case 'x': return m == U;
+    case 'u': return m == U && c.upd[t]->stale.splicingPoint >= 0 && c.upd[t]->fresh.splicingPoint >= 0;
     case 'F': case 'K': return true;
     }
     return false;
@@ -211,7 +227,7 @@ static void client(Case &c, int t)
                     if (ip >= script.size()) { o = 0; break; }
                     p = script[ip++];
                 }
-                if (legal(c.mode[t], o))
+                if (legal(c, t, o))
                     break;
                 o = 0;
             }
@@ -220,7 +236,7 @@ static void client(Case &c, int t)
                 return;
             }
             ev(c, ts + "@" + tmode(c, t));
-            const int f = c.anchor[t];
+            const int f = c.mode[t] == U ? c.upd[t]->fresh.fileNo : c.anchor[t];
             std::string r = ts + std::string(1, o) + (p ? std::string(1, p) : std::string());
             switch (o) {
             case 'W': case 'X': case 'P': {
@@ -260,6 +276,8 @@ static void client(Case &c, int t)
                 else
                     map.writeableSlice(f, c.last[t]).next = id;
                 c.last[t] = id;
+                if (c.mode[t] == U)
+                    c.upd[t]->fresh.splicingPoint = id;
                 r += ":" + std::to_string(id);
                 break;
             }
@@ -310,6 +328,27 @@ static void client(Case &c, int t)
                 r += ".";
                 break;
             }
+            case 'U': {
+                if (!keyOf(p, c.ukey[t])) throw std::runtime_error("bad key");
+                c.uentry[t]->key = c.ukey[t].w;
+                c.upd[t].reset(new Ipc::StoreMapUpdate(c.uentry[t]));
+                if (map.openForUpdating(*c.upd[t], -1)) {
+                    c.mode[t] = U; c.anchor[t] = c.upd[t]->stale.fileNo; c.last[t] = -1;
+                    r += "+" + std::to_string(c.upd[t]->stale.fileNo) + ">" + std::to_string(c.upd[t]->fresh.fileNo);
+                } else {
+                    c.upd[t].reset();
+                    r += "-";
+                }
+                break;
+            }
+            case 's': {
+                Ipc::StoreMapUpdate &u = *c.upd[t];
+                u.stale.splicingPoint = map.sliceContaining(u.stale.fileNo, static_cast<uint64_t>(p - '0'));
+                r += ":" + std::to_string(u.stale.splicingPoint);
+                break;
+            }
+            case 'u': map.closeForUpdating(*c.upd[t]); c.mode[t] = I; c.upd[t].reset(); r += "."; break;
+            case 'x': map.abortUpdating(*c.upd[t]); c.mode[t] = I; c.upd[t].reset(); r += "."; break;
             }
             ev(c, r);
         }
@@ -355,6 +394,10 @@ int main()
                     c.anchor.assign(n, -1);
                     c.last.assign(n, -1);
                     c.crashed.assign(n, false);
+                    c.upd.resize(n);
+                    c.ukey.resize(n);
+                    for (int i = 0; i < n; ++i)
+                        c.uentry.push_back(static_cast<StoreEntry *>(calloc(1, sizeof(StoreEntry))));
                     c.pool.assign(N, true);
                     std::vector<int> schedule;
                     if (a[3 + n] != "-")
@@ -400,6 +443,10 @@ int main()
                         }
                     }
                     o << " | steps=" << sched.steps;
+                    for (int i = 0; i < n; ++i) {
+                        c.upd[i].reset();
+                        free(c.uentry[i]);
+                    }
                     mapHolder.reset();
                     delete owner;
                 }
